@@ -50,6 +50,18 @@ var snippets = []string{
 	`function mk() { return {get p() { return 1 }, q: [1, 2, {r: 3}]} } var o1 = mk(), o2 = mk(); o1.q[2].r = 9; o1.q.push(4); o2.q[2].r + "" + o2.q.length + (o1.q !== o2.q)`,
 	`var c = 0; function K() { this.v = ++c } K.prototype.get = function () { return this.v }; [new K(), new K(), new K()].map(function (k) { return k.get() }).join()`,
 	`Object.getOwnPropertyNames(Math).length > 10 && Object.getPrototypeOf([]) === Array.prototype && isFinite(1 / 3) && !isNaN(parseFloat("1e3"))`,
+	// the same built-in with a DIFFERENT argument in different runtimes: a process-wide memo of "the last
+	// pattern / needle / format" shows as a race or as another runtime's result
+	`var s = "a.b,c;d:e", out = []; for (var i = 0; i < 40; i++) out.push(s.replace(".", "#")); out[39] + s.split(".").length + s.indexOf(".")`,
+	`var s = "a.b,c;d:e", out = []; for (var i = 0; i < 40; i++) out.push(s.replace(",", "#")); out[39] + s.split(",").length + s.indexOf(",")`,
+	`var s = "a.b,c;d:e", out = []; for (var i = 0; i < 40; i++) out.push(s.replace(";", "#")); out[39] + s.split(";").length + s.lastIndexOf(";")`,
+	`var s = "a.b,c;d:e", out = []; for (var i = 0; i < 40; i++) out.push(s.replace(":", "#")); out[39] + s.split(":").length + s.lastIndexOf(":")`,
+	`var r = []; for (var i = 0; i < 30; i++) r.push(new RegExp("a{" + (i % 3 + 1) + "}", "g").exec("aaaa")[0].length); r.join("")`,
+	`var r = []; for (var i = 0; i < 30; i++) r.push(new RegExp("[b-" + "cde".charAt(i % 3) + "]+").exec("abcdef")[0]); r.join("")`,
+	`var r = []; for (var i = 0; i < 30; i++) r.push((i * 1.5).toFixed(i % 4) + (255 + i).toString(2 + i % 30) + parseInt("z" + i, 36)); r.join()`,
+	`var r = []; for (var i = 0; i < 30; i++) r.push(new Date(Date.UTC(2000 + i, i % 12, 1 + i % 28)).toISOString() + Date.parse("20" + (10 + i) + "-01-01")); r.join()`,
+	`var r = []; for (var i = 0; i < 30; i++) r.push(encodeURIComponent("k" + i + " é") + decodeURIComponent("%4" + (i % 6 + 1)) + escape("x" + i + "ü")); r.join()`,
+	`var r = []; for (var i = 0; i < 30; i++) r.push(JSON.stringify({k: i, s: "v" + i}, null, i % 3) + JSON.parse("[" + i + "]")[0]); r.join()`,
 }
 
 func programs(seed uint64, n int) []string {
